@@ -361,9 +361,18 @@ func runSeq(s caseSpec) (lg caseLog) {
 			touch(th.Release)
 		case k < 55:
 			e.K = kReset
+			wasArmed, prevB := armed, touchB
 			th.Reset()
 			e.Lvl = int64(th.Level())
 			armed, needIdle = false, false // Reset stops the timer
+			if idle > 0 && wasArmed && time.Since(prevB) >= idle/2 {
+				// the harness was held up: the timer may have fired before this Reset and
+				// its callback may still be pending - nothing after this can be judged
+				e.Amb = 1
+				lg.Evs = append(lg.Evs, e)
+				aborted = true
+				continue
+			}
 		case k < 67:
 			e.K = kLevel
 			e.Lvl = int64(th.Level())
